@@ -283,16 +283,22 @@ func Point(kind OpKind, obj any, enabled func() bool) {
 	t := s.cur
 	t.Steps++
 	s.Step++
-	if kind != OpYield {
-		s.epoch++
-	} else {
+	if kind == OpYield {
 		t.yieldAt = s.epoch
 	}
-	// fast path: nobody else can run
-	if s.live == 1 && !s.stopReq && (enabled == nil || enabled()) && kind != OpYield && kind != OpQuiesce && !(s.TimerAlts && s.armedTimers() > 0) && s.Step < s.Horizon {
+	// the epoch advances when the operation is actually performed (the thread proceeds), not
+	// when it is requested: a yielding thread must see steps that happen after it yielded
+	proceed := func() {
+		if kind != OpYield {
+			s.epoch++
+		}
 		if s.TraceOn {
 			s.Trace = append(s.Trace, fmt.Sprintf("%d:%s", t.ID, kind))
 		}
+	}
+	// fast path: nobody else can run
+	if s.live == 1 && !s.stopReq && (enabled == nil || enabled()) && kind != OpYield && kind != OpQuiesce && !(s.TimerAlts && s.armedTimers() > 0) && s.Step < s.Horizon {
+		proceed()
 		return
 	}
 	t.kind, t.obj, t.enabled = kind, obj, enabled
@@ -300,9 +306,7 @@ func Point(kind OpKind, obj any, enabled func() bool) {
 	next := s.pick(t)
 	if next == t {
 		t.parked = false
-		if s.TraceOn {
-			s.Trace = append(s.Trace, fmt.Sprintf("%d:%s", t.ID, kind))
-		}
+		proceed()
 		return
 	}
 	if next != nil {
@@ -316,9 +320,7 @@ func Point(kind OpKind, obj any, enabled func() bool) {
 	if s.teardown {
 		panic(killSentinel{})
 	}
-	if s.TraceOn {
-		s.Trace = append(s.Trace, fmt.Sprintf("%d:%s", t.ID, kind))
-	}
+	proceed()
 }
 
 func (s *Sched) exitThread(t *Thread) {
